@@ -168,6 +168,9 @@ class Feature(tuple, metaclass=abc.ABCMeta):
     def __getnewargs__(self):
         return tuple(self)
 
+    def __getstate__(self):
+        return None  # the lazily cached properties (i.e. predicate factors) are not part of the state
+
     def __repr__(self):
         return f'{self.__class__.__name__}({", ".join(repr(a) for a in self)})'
 
